@@ -65,6 +65,8 @@ var (
 	fWorkers = flag.Int("workers", 8, "parallel child processes")
 	fList    = flag.Bool("list", false, "print the streams and exit")
 	fShow    = flag.Int("show", -1, "print case number N of -stream with the parser's diagnostics and exit")
+	fPanics  = flag.String("extract-panics", "", "translator mode: list the panic / unchecked assertion / goroutine sites of the package in this directory")
+	fGen     = flag.String("gen", "GenPanicSites.v", "output of -extract-panics")
 )
 
 func repoDir() string {
@@ -646,6 +648,9 @@ func replayChild(path string) {
 
 func main() {
 	flag.Parse()
+	if *fPanics != "" {
+		os.Exit(doExtractPanics(*fPanics, *fGen))
+	}
 	switch {
 	case *fReplayChild != "":
 		replayChild(*fReplayChild)
